@@ -20,7 +20,7 @@ def parse_result_file(path):
     txt = open(path, errors="replace").read()
     res = {"checks": 0, "success": 0, "failed": [], "undetermined": 0, "unreachable": 0,
            "covers": {}, "verdict": None, "time_s": None, "raw_path": path}
-    for m in re.finditer(r"^Check \d+: (\S+)\n\s+- Status: (\w+)\n\s+- Description: \"(.*?)\"\n\s+- Location: (.*?)$",
+    for m in re.finditer(r"^Check \d+: (.+?)\n\s+- Status: (\w+)\n\s+- Description: \"(.*?)\"\n\s+- Location: (.*?)$",
                          txt, re.M | re.S):
         cid, status, desc, loc = m.group(1), m.group(2), m.group(3), m.group(4).strip()
         if ".cover." in cid:
